@@ -886,7 +886,10 @@ func genC18(tier string, rng *Rng) {
 	// one too many): the tile width is derived from the width the implementation reports for the text in
 	// that font and size (seed C18-8: the last glyph of an exactly fitting line dropped)
 	{
-		texts := []string{"AUX OUTPUT 1", "PROGRAM OUT", "ABC", "AB", "Hi!", "il1.", "Wide WM", "x"}
+		// (the non-ASCII ones end in glyphs whose ink fills the whole advance: the ink overhangs the measured
+		// width by one size step and is cut where it meets the border - the thorough tier found the oracle
+		// too strict there; they are in the quick tier since)
+		texts := []string{"AUX OUTPUT 1", "PROGRAM OUT", "ABC", "AB", "Hi!", "il1.", "Wide WM", "x", "Gr\u00fcn\u00b0", "\u00b0", "\u00c6\u00d8\u00c5", "a\xffb"}
 		ne := 0
 		for _, txt := range texts {
 			for face := 0; face < 3; face++ {
@@ -910,6 +913,9 @@ func genC18(tier string, rng *Rng) {
 						st.tfont = &tfont{face: int32(face), h: sz[1], w: sz[0]}
 						for _, g := range []geo{{0, 0, 0, 0}, {0, 0, 1, 0}, {0, 0, 0, 1}, {0, 0, 3, 2}} {
 							for _, d := range []int{0, 1, -1, 2} {
+								if d == 2 && len(txt) > 0 && txt[len(txt)-1] >= 0x80 {
+									d = int(sz[0]) // room for exactly the overhang
+								}
 								W := sw + 2*g.border + (g.shrink & 1) + d
 								H := 2*lh + 2*g.border + (g.shrink >> 1) + 2
 								if W < 1 || W > 300 || H > 80 {
